@@ -1259,7 +1259,8 @@ impl Server {
     fn spawn() -> Option<Server> {
         use std::io::BufRead;
         use std::os::unix::process::CommandExt;
-        let exe = std::env::current_exe().ok()?;
+        // /proc/self/exe still names this program after a rebuild has replaced the file
+        let exe = PathBuf::from("/proc/self/exe");
         let mut cmd = std::process::Command::new(exe);
         cmd.arg("--serve")
             .env_remove("VERIF_WORKER")
@@ -1429,8 +1430,7 @@ impl Prober {
         if std::fs::write(&path, case.to_json().to_string()).is_err() {
             vcore::machinery_error("cannot write a probe case file");
         }
-        let exe = std::env::current_exe().unwrap_or_else(|e| vcore::machinery_error(&format!("{e}")));
-        let mut cmd = std::process::Command::new(exe);
+        let mut cmd = std::process::Command::new("/proc/self/exe");
         cmd.arg("--one").arg(&path).env_remove("VERIF_WORKER");
         if parse_only {
             cmd.env("C13_PARSE_ONLY", "1");
